@@ -851,3 +851,73 @@ Proof.
     + destruct (replace_part_conc ps n f c 3 3 (58 :: x :: v) 0 HPW ltac:(lia) ltac:(lia) ltac:(intro; lia)) as [Hrp _].
       rewrite Hrp. split; reflexivity.
 Qed.
+
+(* ---------------------------------------------------------------------------------- *)
+(* the piece edits are what the Standard's setters ask for (record level)             *)
+(* ---------------------------------------------------------------------------------- *)
+
+Lemma pieces_set_fragment u x :
+  pieces (set_fragment u x) = setp (pieces u) P_FRAGMENT (match x with Some f => 35 :: f | None => [] end).
+Proof. reflexivity. Qed.
+
+Lemma pieces_set_query u x :
+  pieces (set_query u x) = setp (pieces u) P_QUERY (match x with Some q => 63 :: q | None => [] end).
+Proof. reflexivity. Qed.
+
+Lemma pieces_set_port u x : is_some (uhost u) = true ->
+  pieces (set_port u x) = setp (pieces u) P_PORT (match x with Some p => 58 :: dec_str p | None => [] end).
+Proof. intro H. unfold pieces, set_port. cbn [uhost port scheme username password path query fragment]. rewrite H. reflexivity. Qed.
+
+Lemma str_eqb_nil_len (s : str) : str_eqb s [] = (len s <=? 0).
+Proof. destruct s; [reflexivity|]. rewrite len_cons. cbn [str_eqb]. symmetry. apply N.leb_gt. lia. Qed.
+
+Lemma pieces_no_creds u : is_some (uhost u) = true -> no_creds (pieces u) = negb (includes_credentials u).
+Proof.
+  intro H. unfold no_creds, pieces, includes_credentials. rewrite H. cbn [nth P_USERNAME P_PASSWORD andb].
+  destruct (username u) as [|a us]; destruct (password u) as [|b pw]; cbn [str_eqb negb orb andb]; rewrite ?len_cons, ?len_nil.
+  all: repeat match goal with |- context [?x <=? ?y] => destruct (N.leb_spec x y) end; try reflexivity; lia.
+Qed.
+
+Lemma len_cons_leb0 a (s : str) : (len (a :: s) <=? 0) = false.
+Proof. rewrite len_cons. apply N.leb_gt. lia. Qed.
+Lemma len_cons_leb1 a b (s : str) : (len (a :: b :: s) <=? 1) = false.
+Proof. rewrite !len_cons. apply N.leb_gt. lia. Qed.
+
+Lemma middle_cred k (v : str) : (k < 4)%nat ->
+  middle k 4 (v ++ [64]) (len v) = v :: repeat [] (4 - k - 1) ++ [[64]].
+Proof.
+  intro Hk. unfold middle. destruct (Nat.eqb_spec k 4); [lia|].
+  rewrite to_nat_len, firstn_len_app. rewrite <- (Nat.add_0_r (length v)), skipn_len_app. reflexivity.
+Qed.
+
+Lemma pieces_set_username u v : is_some (uhost u) = true ->
+  pieces (set_username u v) = username_pieces (pieces u) v.
+Proof.
+  intro H. unfold username_pieces. rewrite (pieces_no_creds u H).
+  assert (Hpp : path_prefix (set_username u v) = path_prefix u) by reflexivity.
+  assert (Hps : path_serialize (set_username u v) = path_serialize u) by reflexivity.
+  unfold pieces. rewrite Hpp, Hps. unfold includes_credentials.
+  cbn [set_username uhost port scheme username password query fragment]. rewrite H.
+  set (A := path_prefix u). set (B := path_serialize u).
+  cbn [nth P_USERNAME P_PASSWORD P_HOST_START andb].
+  destruct v as [|x v]; destruct (username u) as [|a us]; destruct (password u) as [|b pw];
+    cbn [str_eqb negb orb andb]; rewrite ?len_cons_leb0, ?len_cons_leb1, ?len_nil; cbn [N.leb N.compare];
+    try reflexivity.
+  all: unfold splice, P_USERNAME, P_PASSWORD, P_HOST_START; rewrite ?middle_cred by lia; reflexivity.
+Qed.
+
+Lemma pieces_set_password u v : is_some (uhost u) = true ->
+  pieces (set_password u v) = password_pieces (pieces u) v.
+Proof.
+  intro H. unfold password_pieces. rewrite (pieces_no_creds u H).
+  assert (Hpp : path_prefix (set_password u v) = path_prefix u) by reflexivity.
+  assert (Hps : path_serialize (set_password u v) = path_serialize u) by reflexivity.
+  unfold pieces. rewrite Hpp, Hps. unfold includes_credentials.
+  cbn [set_password uhost port scheme username password query fragment]. rewrite H.
+  set (A := path_prefix u). set (B := path_serialize u).
+  cbn [nth P_USERNAME P_PASSWORD P_HOST_START andb].
+  destruct v as [|x v]; destruct (username u) as [|a us]; destruct (password u) as [|b pw];
+    cbn [str_eqb negb orb andb]; rewrite ?len_cons_leb0, ?len_cons_leb1, ?len_nil; cbn [N.leb N.compare];
+    try reflexivity.
+  all: unfold splice, P_USERNAME, P_PASSWORD, P_HOST_START; rewrite ?middle_cred by lia; reflexivity.
+Qed.
